@@ -4,7 +4,7 @@ import pk, src
 from common import jhash, first_diff
 from pkgrun import *
 
-PROF = profile(tokens=True, no_textbox_in_link=True, p_text=0.5, run_items=(0, 4), inlines=(0, 5), p_link=0.1, p_bookmark=0.1, p_textbox=0.06,
+PROF = profile(tokens=True, no_textbox_in_link=True, p_no_r_ns=0.12, p_drawing=0.1, p_text=0.5, run_items=(0, 4), inlines=(0, 5), p_link=0.1, p_bookmark=0.1, p_textbox=0.06,
                p_table=0.22, dangling=True)
 RULE = ('packages from the "inline-rich" profile: every w:t / m:t carries a unique token, runs are split arbitrarily and interleaved '
         'with non-content markup, links, notes, forms, pictures, text boxes, tables with merged cells; html off, both settings of '
